@@ -51,13 +51,21 @@ static unsigned long vp_pack(const char *s, int a, int b, int word)
 			w |= ((unsigned long) (unsigned char) s[k]) << (8 * (k % 8));
 	return w;
 }
+/* Two facts about decimal numbers are built in by clamping (the identity on the real
+ * function, so nothing is assumed): at most 9 digits => <= 999999999 (fits an int), at
+ * most 18 digits => <= 10^18-1 (fits a long); and at most 19 digits => not huge. */
 static int vp_dec_huge(const char *s, int a, int b)
 {
-	return __CPROVER_uninterpreted_dec_huge(vp_pack(s, a, b, 0), vp_pack(s, a, b, 1), a, b);
+	return b - a > 19 && __CPROVER_uninterpreted_dec_huge(vp_pack(s, a, b, 0), vp_pack(s, a, b, 1), a, b);
 }
 static unsigned long vp_dec_mag(const char *s, int a, int b)
 {
-	return __CPROVER_uninterpreted_dec_mag(vp_pack(s, a, b, 0), vp_pack(s, a, b, 1), a, b);
+	unsigned long m = __CPROVER_uninterpreted_dec_mag(vp_pack(s, a, b, 0), vp_pack(s, a, b, 1), a, b);
+	if (b - a <= 9 && m > 999999999UL)
+		m = 999999999UL;
+	if (b - a <= 18 && m > 999999999999999999UL)
+		m = 999999999999999999UL;
+	return m;
 }
 #else
 /* acc*10+d <= ULONG_MAX without a run-time division: ULONG_MAX = 10 * VP_Q + 5 */
@@ -94,7 +102,15 @@ static unsigned long vp_dec_mag(const char *s, int a, int b)
 /* the run is a number that fits an int */
 static int vp_fits_int(const char *s, int a, int b)
 {
-	return !vp_dec_huge(s, a, b) && vp_dec_mag(s, a, b) <= (unsigned long) INT_MAX;
+#ifdef VP_EXP_NOFIT
+	return 1;
+#endif
+	return b - a <= 9 || (!vp_dec_huge(s, a, b) && vp_dec_mag(s, a, b) <= (unsigned long) INT_MAX);
+}
+/* the run, with a '-' sign if neg, does not fit a long (strtol: ERANGE) */
+static int vp_overflows_long(const char *s, int a, int b, int neg)
+{
+	return b - a > 18 && (vp_dec_huge(s, a, b) || vp_dec_mag(s, a, b) > VP_LIM(neg));
 }
 
 /* ------------------------------------------------------------------------
@@ -199,11 +215,11 @@ long m_strtol(const char *nptr, char **endptr, int base)
 		m_conv_b[m_conv_n] = b;
 		m_conv_n++;
 	}
-	unsigned long mag = vp_dec_mag(m_base, a, b);
-	if (vp_dec_huge(m_base, a, b) || mag > VP_LIM(neg)) {
+	if (vp_overflows_long(m_base, a, b, neg)) {
 		errno = ERANGE;
 		return neg ? LONG_MIN : LONG_MAX;
 	}
+	unsigned long mag = vp_dec_mag(m_base, a, b);
 	if (neg)
 		return mag == (unsigned long) LONG_MAX + 1UL ? LONG_MIN : -(long) mag;
 	return (long) mag;
@@ -333,9 +349,9 @@ static struct vp_shape vp_shape_actual(const char *s)
  * and the result must not be negative.  -1 if refused. */
 static int vp_actual_value(const char *s, int a, int b, int neg)
 {
-	unsigned long mag = vp_dec_mag(s, a, b);
-	if (vp_dec_huge(s, a, b) || mag > VP_LIM(neg))
+	if (vp_overflows_long(s, a, b, neg))
 		return -1;
+	unsigned long mag = vp_dec_mag(s, a, b);
 	unsigned int low = (unsigned int) ((neg ? 0UL - mag : mag) & 0xffffffffUL);
 	if (low > (unsigned int) INT_MAX)
 		return -1;
@@ -358,9 +374,10 @@ static int spec_actual(const char *s, int k)
 	return vp_accepted_shape(s, sh) ? vp_actual_value(s, sh.a[k], sh.b[k], sh.neg[k]) : -1;
 }
 
-/* every maximal run of digits is a number <= INT_MAX (so that the conversion
- * (int) strtol(..) in version_parse never narrows, whether the string is accepted or not) */
-static int spec_ints_fit(const char *s)
+/* every maximal run of digits has at most 9 digits, hence is a number that fits an int
+ * (so that the conversion (int) strtol(..) in version_parse never narrows, whether the
+ * string is accepted or not) */
+static int spec_runs_short(const char *s)
 {
 	int a = -1;
 	for (int i = 0; i < VP_N; i++) {
@@ -368,9 +385,9 @@ static int spec_ints_fit(const char *s)
 		if (c >= '0' && c <= '9') {
 			if (a < 0)
 				a = i;
-		} else {
-			if (a >= 0 && !vp_fits_int(s, a, i))
+			if (i - a >= 9)
 				return 0;
+		} else {
 			a = -1;
 		}
 		if (c == '\0')
@@ -389,10 +406,11 @@ static int spec_terminated(const char *s)
 }
 
 /* CARVE-OUT (finding "lenient version_parse"): the strings on which the two languages
- * differ, and those holding a number that (int) strtol(..) would narrow */
+ * differ, and those holding a number of 10 or more digits, which (int) strtol(..) may
+ * narrow (L4; ten-digit numbers up to INT_MAX are the only harmless strings excluded) */
 static int spec_outside_finding(const char *s)
 {
-	return spec_wellformed(s) == spec_accepted(s) && spec_ints_fit(s);
+	return spec_wellformed(s) == spec_accepted(s) && spec_runs_short(s);
 }
 #define VP_COMPAT(w0, w1, h0, h1) ((w0) == (h0) && (w1) <= (h1))
 
